@@ -28,6 +28,7 @@ DRIVER = 'drv_loop_pantr'
 MODULES = ['Alpaqa.Props.C03_Pantr', 'Alpaqa.Props.C05_Pantr', 'Alpaqa.Props.C06_Pantr',
            'Alpaqa.Props.C19_Pantr']
 EXTRA_SOURCES = ['Alpaqa/Model/Pantr.lean', 'Alpaqa/Proofs/PantrInv.lean', 'Alpaqa/Proofs/PantrOrd.lean',
+                 'Alpaqa/Proofs/PantrDoc.lean', 'Alpaqa/Proofs/PantrSized.lean',
                  'Alpaqa/Proofs/PantrFuel.lean', 'Alpaqa/Proofs/PantrChain.lean',
                  'Alpaqa/Proofs/PantrExample.lean', 'Alpaqa/Proofs/PantrExampleQ.lean',
                  'Alpaqa/Proofs/ProxContract.lean', 'Driver/LoopPantr.lean',
@@ -466,6 +467,85 @@ def selftest(argv=()):
     return 0 if (ok and bad == 0 and not viol) else 1
 
 
+def stall_experiment(maxiter=500, verbose=True):
+    """C06 / PANTR: `no_progress` is declared in pantr.tpp, handed to the status chain and never updated,
+    so `NoProgress` is never reported (Props/C06_Pantr.pantr_never_noProgress).  The property text only
+    constrains WHEN NoProgress may be reported — nothing is violated —, but a PANTR run whose iterate no
+    longer changes is not stopped by it.  This runs the REAL solver on such a problem:
+
+        n = 1, m = 0, ψ(x) = c·x with c = 1e-12, no box, x₀ = 1e10, L_0 = 0 (finite-difference estimate 0,
+        clamped to L_min = 1e-5, γ = 0.95e5): p = −γc ≈ −9.5e-8 is below half an ulp of x (ulp(1e10) ≈ 1.9e-6),
+        so x̂ = x + p == x bit for bit while ε = ‖p‖∞ (ProjGradNorm) = 9.5e-8 > tol = 1e-300.
+
+    → for PANTR (acceleration disabled, and with the Newton-TR / adversarial providers), PANOC and ZeroFPR on
+    the same problem: status, iterations, longest run of consecutive callbacks with bit-identical x, min ε."""
+    import solvers as S2
+    INFv = float('inf')
+    base = {'n': '1', 'm': '0', 'Q': S.kvvec([0.0]), 'c': S.kvvec([1e-12]), 'q4': S.kvvec([0.0]),
+            'A': S.kvvec([]), 'b': S.kvvec([]), 'Clb': S.kvvec([-INFv]), 'Cub': S.kvvec([INFv]),
+            'Dlb': S.kvvec([]), 'Dub': S.kvvec([]), 'l1': S.kvvec([]),
+            'x0': S.kvvec([1e10]), 'y0': S.kvvec([]), 'Sig': S.kvvec([]),
+            'maxiter': str(maxiter), 'tol': f2h(1e-300), 'crit': str(S.CRITS.index('ProjGradNorm')),
+            'maxnp': '10', 'overwrite': '1', 'L0': f2h(0.0), 'Lgf': f2h(0.95), 'Lmax': f2h(1e20),
+            'stopat': '0', 'stopcb': '0', 'nanat': '0', 'oot': '0'}
+    rng = random.Random(1)
+    rows = []
+
+    def longest_same_x(cbs):
+        best = cur = 1 if cbs else 0
+        for a, b in zip(cbs, cbs[1:]):
+            cur = cur + 1 if [f2h(v) for v in a['x']] == [f2h(v) for v in b['x']] else 1
+            best = max(best, cur)
+        return best
+
+    exe, log = build_harness()
+    assert exe, log
+    for label, over in (('pantr noaccel=1', dict(noaccel=1, dir='newtontr')),
+                        ('pantr newtontr', dict(noaccel=0, dir='newtontr', fd=1)),
+                        ('pantr advtr', dict(noaccel=0, dir='advtr'))):
+        op = gen_run(rng, stop=False)
+        for k, v in {**base, **{k: str(v) for k, v in over.items()}}.items():
+            op[k] = v
+        out, rc, err = C.run_lines(exe, [op.line()], timeout=600)
+        if rc != 0 or not out:
+            rows.append((label, 'harness failed', rc, err[-200:])); continue
+        if out[0].startswith('S exception'):
+            rows.append((label, 'exception', out[0][:200], op.line())); continue
+        r = parse_out(out[0])
+        eps = [c['eps'] for c in r['cbs']]
+        rows.append((label, r['stats']['status'], r['stats']['iterations'], longest_same_x(r['cbs']),
+                     min(eps) if eps else None, op.line()))
+    # PANOC and ZeroFPR on the same problem
+    try:
+        import loop_zerofpr as LZ
+        others = (('panoc', S2.build_harness, 'panoc', S2.parse_out), ('zerofpr', LZ.build_harness, 'zerofpr',
+                  getattr(LZ, 'parse_out', S2.parse_out)))
+    except Exception as e:           # pragma: no cover
+        others = (('panoc', S2.build_harness, 'panoc', S2.parse_out),)
+    for label, bh, solver, po in others:
+        try:
+            exe2, log2 = bh()
+            op = S.Op({'_op': 'run', 'solver': solver, 'dir': 'lbfgs', **base})
+            out, rc, err = C.run_lines(exe2, [op.line()], timeout=600)
+            r = po(out[0])
+            xs = [c.get('x') for c in r['cbs']]
+            same = cur = 1 if xs else 0
+            for a, b in zip(xs, xs[1:]):
+                cur = cur + 1 if [f2h(v) for v in a] == [f2h(v) for v in b] else 1
+                same = max(same, cur)
+            eps = [c['eps'] for c in r['cbs'] if 'eps' in c]
+            rows.append((label, r['stats']['status'], r['stats']['iterations'], same,
+                         min(eps) if eps else None, op.line()))
+        except Exception as e:
+            rows.append((label, 'comparison not available', repr(e)[:200]))
+    if verbose:
+        for row in rows:
+            print('[stall]', row[:5])
+            if len(row) > 5:
+                print('        op:', row[5][:1200])
+    return rows
+
+
 def mutcheck(seed=1, N=400, nsweep=3):
     """Mutation-test helper (run with VERIF_REPO=<private mutated copy>): which mechanism notices?
     Does *not* rewrite lean/Alpaqa/Gen (other agents build concurrently): the translators write to
@@ -531,6 +611,8 @@ def dev(seed, N):
 if __name__ == '__main__':
     if len(sys.argv) > 1 and sys.argv[1] == 'mutcheck':
         sys.exit(mutcheck())
+    elif len(sys.argv) > 1 and sys.argv[1] == 'stall':
+        stall_experiment(int(sys.argv[2]) if len(sys.argv) > 2 else 500)
     elif len(sys.argv) > 1 and sys.argv[1] == 'dev':
         dev(int(sys.argv[2]) if len(sys.argv) > 2 else 1, int(sys.argv[3]) if len(sys.argv) > 3 else 50)
     else:
